@@ -1,3 +1,157 @@
 import Abverif.Model.WsSpec
+import Abverif.Proofs.Lemmas.WsExt
+/-
+C05 — WebSocket connections close exactly once, in order.
+Theorems over ARBITRARY operation sequences (`run (start cfg) ops`, any length), by induction with the relation `Ext`
+(Proofs/Lemmas/WsExt.lean) that every operation except the framework's connection-lost notification satisfies.
+-/
 namespace Abverif.Ws
+
+/-! ### the framework's connection-lost notification -/
+
+def countOnClose (log : List Out) : Nat := (log.filter Out.isOnClose).length
+
+theorem markClosed_st (s : S) : (markClosed s).st = .closed := by
+  unfold markClosed
+  split
+  · rfl
+  · rename_i h; simpa using h
+
+theorem reportClose_st (s : S) : (reportClose s).st = s.st := by
+  unfold reportClose
+  split
+  · dsimp only; split <;> rfl
+  · rfl
+
+theorem reportClose_lost (s : S) : (reportClose s).lost = s.lost := by
+  unfold reportClose
+  split
+  · dsimp only; split <;> rfl
+  · rfl
+
+theorem markClosed_lost (s : S) : (markClosed s).lost = s.lost := by
+  unfold markClosed
+  split <;> rfl
+
+theorem reportClose_count (s : S) : countOnClose (reportClose s).log = countOnClose s.log + 1 := by
+  unfold reportClose countOnClose
+  split
+  · dsimp only
+    split <;> simp [S.emit, List.filter_append] <;> rfl
+  · simp [S.emit, List.filter_append]; rfl
+
+theorem markClosed_count (s : S) : countOnClose (markClosed s).log = countOnClose s.log := by
+  unfold markClosed countOnClose
+  split
+  · simp [S.emit, List.filter_append, Out.isOnClose]
+  · rfl
+
+theorem connectionLost_rank (s : S) : s.st.rank ≤ (connectionLost s).st.rank := by
+  unfold connectionLost
+  split
+  · exact Nat.le_refl _
+  · rw [reportClose_st, markClosed_st]; exact rank_le_closed _
+
+theorem connectionLost_closed (s : S) (h : s.lost = false) :
+    (connectionLost s).st = .closed ∧ (connectionLost s).lost = true := by
+  unfold connectionLost
+  rw [if_neg (by simp [h])]
+  exact ⟨by rw [reportClose_st, markClosed_st], by rw [reportClose_lost, markClosed_lost]; rfl⟩
+
+/-- `connectionLost` on a connection that has not been lost yet emits exactly one `onClose` -/
+theorem connectionLost_emits_one (s : S) (h : s.lost = false) :
+    countOnClose (connectionLost s).log = countOnClose s.log + 1 := by
+  unfold connectionLost
+  rw [if_neg (by simp [h]), reportClose_count, markClosed_count]
+  rfl
+
+theorem connectionLost_idem (s : S) (h : s.lost = true) : connectionLost s = s := by
+  unfold connectionLost; simp [h]
+
+/-! ### invariants over arbitrary histories -/
+
+theorem Ext.count {a b : S} (h : Ext a b) : countOnClose b.log = countOnClose a.log := by
+  obtain ⟨d, e, n⟩ := h.log
+  unfold countOnClose
+  rw [e, List.filter_append]
+  have : d.filter Out.isOnClose = [] := by
+    rw [List.filter_eq_nil_iff]
+    intro o ho
+    simp [n o ho]
+  simp [this]
+
+theorem step_rank (s : S) (op : Op) : s.st.rank ≤ (step s op).st.rank := by
+  unfold step
+  refine Nat.le_trans ?_ (pump_Ext _).rank
+  by_cases h : op = .lost
+  · subst h; exact connectionLost_rank s
+  · exact (stepCore_Ext s op h).rank
+
+/-- **state_monotone**: the connection state only moves forward (CONNECTING < OPEN < CLOSING < CLOSED) under every
+sequence of API calls, reads, clock advances and connection loss -/
+theorem state_monotone (s : S) (ops : List Op) : s.st.rank ≤ (run s ops).st.rank := by
+  induction ops generalizing s with
+  | nil => exact Nat.le_refl _
+  | cons op ops ih =>
+    simp only [run, List.foldl_cons]
+    exact Nat.le_trans (step_rank s op) (ih _)
+
+/-- the close notification has been delivered exactly when the transport is gone, and never more than once -/
+def CloseOnce (s : S) : Prop :=
+  (s.lost = false ∧ countOnClose s.log = 0) ∨ (s.lost = true ∧ countOnClose s.log = 1)
+
+theorem step_closeOnce (s : S) (op : Op) (h : CloseOnce s) : CloseOnce (step s op) := by
+  unfold step
+  have hp := pump_Ext (stepCore s op)
+  unfold CloseOnce
+  rw [hp.lost, hp.count]
+  by_cases hop : op = .lost
+  · subst hop
+    simp only [stepCore]
+    rcases h with ⟨hl, hc⟩ | ⟨hl, hc⟩
+    · right
+      exact ⟨(connectionLost_closed s hl).2, by rw [connectionLost_emits_one s hl, hc]⟩
+    · right
+      rw [connectionLost_idem s hl]; exact ⟨hl, hc⟩
+  · have he := stepCore_Ext s op hop
+    rw [he.lost, he.count]
+    exact h
+
+theorem run_closeOnce (s : S) (ops : List Op) (h : CloseOnce s) : CloseOnce (run s ops) := by
+  induction ops generalizing s with
+  | nil => exact h
+  | cons op ops ih =>
+    simp only [run, List.foldl_cons]
+    exact ih _ (step_closeOnce s op h)
+
+theorem start_closeOnce (cfg : Cfg) : CloseOnce (start cfg) := by
+  unfold start CloseOnce
+  dsimp only
+  split <;> simp [armPingNext, S.timer, countOnClose]
+
+/-- **onClose_at_most_once** (and exactly once after the transport is gone, never before): for every configuration
+and every history -/
+theorem onClose_at_most_once (cfg : Cfg) (ops : List Op) :
+    countOnClose (run (start cfg) ops).log ≤ 1 ∧
+    ((run (start cfg) ops).lost = true ↔ countOnClose (run (start cfg) ops).log = 1) := by
+  rcases run_closeOnce _ ops (start_closeOnce cfg) with ⟨hl, hc⟩ | ⟨hl, hc⟩
+  · simp [hl, hc]
+  · simp [hl, hc]
+
+/-- only the connection-lost event delivers `onClose` (so it comes after the transport is gone) -/
+theorem onClose_only_at_lost (s : S) (op : Op) (h : op ≠ .lost) :
+    countOnClose (step s op).log = countOnClose s.log := by
+  unfold step
+  rw [(pump_Ext _).count, (stepCore_Ext s op h).count]
+
+/-- once the transport is gone the connection is CLOSED -/
+theorem lost_closed (s : S) (h : s.lost = false) : (step s .lost).st = .closed := by
+  unfold step
+  have h1 := (connectionLost_closed s h).1
+  have h2 := (pump_Ext (stepCore s .lost)).rank
+  simp only [stepCore] at h2 ⊢
+  rw [h1] at h2
+  generalize (pump (connectionLost s)).st = st at h2
+  cases st <;> simp [St.rank] at h2 ⊢
+
 end Abverif.Ws
